@@ -42,6 +42,22 @@ NOT_YET = 'check under construction in this round (DESIGN.md section 8); claimed
 def main():
     discover()
     props = [json.loads(l)['id'] for l in open(os.path.join(VERIF, 'properties.jsonl'))]
+    # every property with Cxx_src_* theorems says so in its level text (names taken from Props/Cxx*.lean)
+    from harness import core
+    for pid, c in CHECKS.items():
+        try:
+            src = [t for t in core.theorems_of(pid) if '_src_' in t]
+        except Exception:
+            src = []
+        if src and 'Source tie:' not in c['text']:
+            KEY = ('process_members', 'build_eq', 'flatten_build', 'expand_build', 'generate_eq', 'parse_eq', 'print_', 'query_eq',
+                   'preprocess_eq', 'process_operator', 'process_element', 'bitmap_definition', 'reset_template', 'switch_subset',
+                   'add_bitmap_link', 'finish_section', 'resume_policy', 'nbits_for_uint', 'subset_', 'labels')
+            rank = lambda t: min([i for i, k in enumerate(KEY) if k in t] or [len(KEY) + ('const' in t)])
+            main = sorted(src, key=rank)[:8]
+            c['text'] += (' Source tie: %d theorems %s_src_* prove, for all inputs, that definitions regenerated from /repo\'s Python '
+                          'source on every check equal the model definitions these theorems are about (e.g. %s); a behaviour-changing '
+                          'edit of that source breaks them.' % (len(src), pid, ', '.join(main)))
     checks = []
     for pid in props:
         if pid in CHECKS:
